@@ -308,6 +308,29 @@ class DynGraph(nx.Graph):
             seen[n] = 1
         del seen
 
+    def __event_key(self, u, v, op, t):
+        # key under which the event of the (unordered) pair is stored at time t, if any
+        events = self.time_to_edge.get(t)
+        if events:
+            if (u, v, op) in events:
+                return u, v, op
+            if (v, u, op) in events:
+                return v, u, op
+        return None
+
+    def __add_event(self, u, v, op, t):
+        if self.__event_key(u, v, op, t) is None:
+            if t not in self.time_to_edge:
+                self.time_to_edge[t] = {}
+            self.time_to_edge[t][(u, v, op)] = None
+
+    def __del_event(self, u, v, op, t):
+        key = self.__event_key(u, v, op, t)
+        if key is not None:
+            del self.time_to_edge[t][key]
+            if not self.time_to_edge[t]:
+                del self.time_to_edge[t]
+
     def add_interaction(self, u, v, t=None, e=None):
         """Add an interaction between u and v at time t vanishing (optional) at time e.
 
@@ -363,62 +386,40 @@ class DynGraph(nx.Graph):
             self._adj[v] = self.adjlist_inner_dict_factory()
             self._node[v] = {}
 
-        for idt in [t[0]]:
-            if self.has_edge(u, v) and not self.edge_removal:
-                continue
-            else:
-                if idt not in self.time_to_edge:
-                    self.time_to_edge[idt] = {(u, v, "+"): None}
-                else:
-                    if (u, v, "+") not in self.time_to_edge[idt]:
-                        self.time_to_edge[idt][(u, v, "+")] = None
-
         if e is not None and self.edge_removal:
-
             t[1] = e - 1
-            if e not in self.time_to_edge:
-                self.time_to_edge[e] = {(u, v, "-"): None}
-            else:
-                self.time_to_edge[e][(u, v, "-")] = None
 
-        # add the interaction
+        # add the interaction; stream events are emitted once the effect on the timeline is known
         datadict = self._adj[u].get(v, self.edge_attr_dict_factory())
 
         if 't' in datadict:
             app = datadict['t']
-            max_end = app[-1][1]
+            start, max_end = app[-1]
 
-            if max_end == app[-1][0] and t[0] == app[-1][0] + 1:
+            if t[0] > max_end + 1:
+                # a new run starts after a gap
+                app.append(t)
+                if self.edge_removal:
+                    self.__add_event(u, v, "+", t[0])
+                    if e is not None:
+                        self.__add_event(u, v, "-", e)
 
-                app[-1] = [app[-1][0], t[1]]
-                if app[-1][0] + 1 in self.time_to_edge and (u, v, "+") in self.time_to_edge[app[-1][0] + 1]:
-                    del self.time_to_edge[app[-1][0] + 1][(u, v, "+")]
+            elif t[1] > max_end:
+                # the span overlaps or touches the latest run: the run is extended and its vanishing moves
+                app[-1] = [start, t[1]]
+                self.__del_event(u, v, "-", max_end + 1)
+                # (a one-instant run extended by a single instant is left open, as it always was)
+                if self.edge_removal and (e is not None or start < max_end):
+                    self.__add_event(u, v, "-", t[1] + 1)
 
-            else:
-                if t[0] <= max_end < t[1]:
-                    app[-1][1] = t[1]
-                    if max_end + 1 in self.time_to_edge:
-                        if self.edge_removal:
-                            del self.time_to_edge[max_end + 1][(u, v, "-")]
-                        del self.time_to_edge[t[0]][(u, v, "+")]
-
-                elif max_end == t[0] - 1:
-                    if max_end + 1 in self.time_to_edge and (u, v, "+") in self.time_to_edge[max_end + 1]:
-                        del self.time_to_edge[max_end + 1][(u, v, "+")]
-                        if self.edge_removal:
-                            if max_end + 1 in self.time_to_edge and (u, v, '-') in self.time_to_edge[max_end + 1]:
-                                del self.time_to_edge[max_end + 1][(u, v, '-')]
-                            if t[1] + 1 in self.time_to_edge:
-                                self.time_to_edge[t[1] + 1][(u, v, "-")] = None
-                            else:
-                                self.time_to_edge[t[1] + 1] = {(u, v, "-"): None}
-
-                    app[-1][1] = t[1]
-                elif t[0] > max_end:
-                    # a span inside the latest run is already covered by it
-                    app.append(t)
+            elif e is not None and self.edge_removal and t[1] == max_end:
+                # a span inside the latest run is already covered by it; its vanishing is restated
+                self.__add_event(u, v, "-", e)
         else:
             datadict['t'] = [t]
+            self.__add_event(u, v, "+", t[0])
+            if e is not None and self.edge_removal:
+                self.__add_event(u, v, "-", e)
 
         if e is not None:
             span = range(t[0], t[1] + 1)
